@@ -1,3 +1,353 @@
 package main
 
-func checkMain(args []string) int { return 2 }
+import (
+	"encoding/json"
+	"flag"
+	"fmt"
+	"os"
+	"path/filepath"
+	"runtime"
+	"sort"
+	"strconv"
+	"strings"
+	"sync"
+	"time"
+)
+
+type KnownFinding struct {
+	Property string `json:"property"`
+	Harness  string `json:"harness"`  // harness name ("" = any of the property)
+	Class    string `json:"class"`    // obligation class
+	IDHas    string `json:"id_has"`   // substring of the obligation id
+	PosHas   string `json:"pos_has"`  // substring of the position (file / function)
+	What     string `json:"what"`     // human description printed on the KNOWN-FINDING line
+	Status   string `json:"status"`   // "known" or "fixed: <commit> ..."
+	Witness  string `json:"witness"`  // an input/history that fails (documentation)
+}
+
+type verdict struct {
+	spec   HarnessSpec
+	res    *HarnessResult
+	viol   []ObResult
+	known  []string
+	incon  []string
+	passed int
+	covers int
+}
+
+func loadRegistry() ([]HarnessSpec, error) {
+	b, err := os.ReadFile(filepath.Join(harnessDir, "registry.json"))
+	if err != nil {
+		return nil, err
+	}
+	var specs []HarnessSpec
+	if err := json.Unmarshal(b, &specs); err != nil {
+		return nil, err
+	}
+	return specs, nil
+}
+
+func loadKnown() []KnownFinding {
+	b, err := os.ReadFile("/verif/known_findings.json")
+	if err != nil {
+		return nil
+	}
+	var k []KnownFinding
+	json.Unmarshal(b, &k)
+	return k
+}
+
+func matchKnown(k []KnownFinding, prop, harness string, o ObResult) *KnownFinding {
+	for i := range k {
+		f := &k[i]
+		if f.Status != "known" || f.Property != prop {
+			continue
+		}
+		if f.Harness != "" && f.Harness != harness {
+			continue
+		}
+		if f.Class != "" && f.Class != o.Class {
+			continue
+		}
+		if f.IDHas != "" && !strings.Contains(o.ID, f.IDHas) {
+			continue
+		}
+		if f.PosHas != "" && !strings.Contains(o.Pos, f.PosHas) {
+			continue
+		}
+		return f
+	}
+	return nil
+}
+
+func checkMain(args []string) int {
+	prop := args[0]
+	fs := flag.NewFlagSet("check", flag.ExitOnError)
+	tier := fs.String("tier", "quick", "quick|thorough")
+	only := fs.String("only", "", "run only harnesses whose name contains this")
+	verbose := fs.Bool("v", false, "verbose")
+	jobs := fs.Int("j", 0, "parallel harnesses")
+	noEvidence := fs.Bool("no-evidence", false, "do not write the evidence file")
+	fs.Parse(args[1:])
+	if t := os.Getenv("VERIF_TIER"); t != "" && !flagSet(fs, "tier") {
+		*tier = t
+	}
+	seed := 0
+	if s := os.Getenv("VERIF_SEED"); s != "" {
+		seed, _ = strconv.Atoi(s)
+	}
+	t0 := time.Now()
+	specs, err := loadRegistry()
+	if err != nil {
+		fmt.Println("INCONCLUSIVE registry:", err)
+		return 2
+	}
+	var sel []HarnessSpec
+	for _, s := range specs {
+		if s.Property != prop {
+			continue
+		}
+		if *only != "" && !strings.Contains(s.Name, *only) {
+			continue
+		}
+		if *tier == "quick" && s.Tier == "thorough" {
+			continue
+		}
+		if *tier == "thorough" && s.Tier == "quick-only" {
+			continue
+		}
+		if *tier == "thorough" && s.TimeoutMs > 0 {
+			s.TimeoutMs *= 4
+		}
+		sel = append(sel, s)
+	}
+	if len(sel) == 0 {
+		fmt.Printf("INCONCLUSIVE no harness registered for %s\n", prop)
+		return 2
+	}
+	l, err := loadRepo()
+	if err != nil {
+		fmt.Println("INCONCLUSIVE", err)
+		writeEvidence(prop, *tier, seed, nil, time.Since(t0), "harness does not build against the current tree: "+err.Error(), *noEvidence)
+		return 2
+	}
+	known := loadKnown()
+	nj := *jobs
+	if nj <= 0 {
+		nj = runtime.NumCPU() / 2
+		if nj < 1 {
+			nj = 1
+		}
+	}
+	verdicts := make([]*verdict, len(sel))
+	var wg sync.WaitGroup
+	sem := make(chan struct{}, nj)
+	for i, s := range sel {
+		wg.Add(1)
+		go func(i int, s HarnessSpec) {
+			defer wg.Done()
+			sem <- struct{}{}
+			defer func() { <-sem }()
+			r := runHarness(l, s, false, "")
+			verdicts[i] = judge(prop, s, r, known)
+		}(i, s)
+	}
+	wg.Wait()
+	exit := 0
+	knownPrinted := map[string]bool{}
+	var violLines []string
+	for _, v := range verdicts {
+		if *verbose {
+			printResult(v.res, true)
+		} else {
+			fmt.Printf("%s %-28s %d obligations unsat, %d covers sat, %d violations, %d known, %d inconclusive (exec %d ms, solve %d ms)\n",
+				prop, v.spec.Name, v.passed, v.covers, len(v.viol), len(v.known), len(v.incon), v.res.ExecMs, v.res.SolveMs)
+		}
+		for _, k := range v.known {
+			if !knownPrinted[k] {
+				knownPrinted[k] = true
+				fmt.Printf("KNOWN-FINDING: property=%s %s\n", prop, k)
+			}
+		}
+		for _, in := range v.incon {
+			fmt.Printf("INCONCLUSIVE %s: %s\n", v.spec.Name, in)
+			if exit == 0 {
+				exit = 2
+			}
+		}
+		for _, o := range v.viol {
+			path := writeReplay(prop, v, o)
+			line := fmt.Sprintf("VIOLATION property=%s replay=%s", prop, path)
+			violLines = append(violLines, line)
+			fmt.Printf("  %s: [%s] %s at %s model=%v\n", v.spec.Name, o.Class, o.ID, o.Pos, o.Model)
+			exit = 1
+		}
+	}
+	for _, l := range violLines {
+		fmt.Println(l)
+	}
+	writeEvidence(prop, *tier, seed, verdicts, time.Since(t0), "", *noEvidence)
+	return exit
+}
+
+func flagSet(fs *flag.FlagSet, name string) bool {
+	set := false
+	fs.Visit(func(f *flag.Flag) {
+		if f.Name == name {
+			set = true
+		}
+	})
+	return set
+}
+
+func judge(prop string, s HarnessSpec, r *HarnessResult, known []KnownFinding) *verdict {
+	v := &verdict{spec: s, res: r}
+	if r.Err != "" {
+		v.incon = append(v.incon, "engine: "+r.Err)
+		return v
+	}
+	for _, o := range r.Obs {
+		switch {
+		case o.Class == "cover":
+			if o.Result == "sat" {
+				v.covers++
+			} else {
+				v.incon = append(v.incon, fmt.Sprintf("reachability witness %q is %s (vacuous harness?)", o.ID, o.Result))
+			}
+		case o.Result == "unsat":
+			v.passed++
+		case o.Result == "sat":
+			if k := matchKnown(known, prop, s.Name, o); k != nil {
+				v.known = append(v.known, k.What)
+			} else {
+				v.viol = append(v.viol, o)
+			}
+		default:
+			v.incon = append(v.incon, fmt.Sprintf("solver gave no verdict on [%s] %s within the time limit", o.Class, o.ID))
+		}
+	}
+	return v
+}
+
+func writeReplay(prop string, v *verdict, o ObResult) string {
+	dir := "/verif/.work/replay"
+	os.MkdirAll(dir, 0o755)
+	name := fmt.Sprintf("%s_%s_%d.json", prop, v.spec.Name, time.Now().UnixNano()%1000000)
+	path := filepath.Join(dir, name)
+	b, _ := json.MarshalIndent(map[string]interface{}{
+		"property": prop, "harness": v.spec.Name, "func": v.spec.Func, "pkg": v.spec.Pkg,
+		"obligation": o, "int_mode": v.spec.Int,
+	}, "", " ")
+	os.WriteFile(path, b, 0o644)
+	return path
+}
+
+func writeEvidence(prop, tier string, seed int, vs []*verdict, wall time.Duration, note string, skip bool) {
+	if skip {
+		return
+	}
+	os.MkdirAll("/verif/evidence", 0o755)
+	type sample struct {
+		Harness string `json:"harness"`
+		Class   string `json:"class"`
+		ID      string `json:"obligation"`
+		Result  string `json:"verdict"`
+		Solver  string `json:"solver,omitempty"`
+		Ms      int64  `json:"ms"`
+		Pos     string `json:"pos,omitempty"`
+	}
+	var samples []sample
+	states, trans, nobl, ndis, ntriv, viol, traces := 0, 0, 0, 0, 0, 0, 0
+	funcs := map[string]bool{}
+	stubs := map[string]bool{}
+	assum := map[string]bool{}
+	var bounds []map[string]interface{}
+	var solveMs, execMs int64
+	var incon []string
+	for _, v := range vs {
+		r := v.res
+		states += r.NBlocks + r.NSteps
+		trans += r.NInstr + r.NCands
+		ntriv += r.NTrivial
+		solveMs += r.SolveMs
+		execMs += r.ExecMs
+		for _, f := range r.Funcs {
+			funcs[f] = true
+		}
+		for _, f := range r.Stubs {
+			stubs[f] = true
+		}
+		for _, f := range r.Assumptions {
+			assum[f] = true
+		}
+		bounds = append(bounds, map[string]interface{}{"harness": v.spec.Name, "facet": v.spec.Facet, "arithmetic": map[bool]string{true: "Int/Real (IEEE standard model)", false: "64-bit bit-vectors"}[v.spec.Int],
+			"loop_unwind": orDefault(v.spec.Unwind, 16), "max_moves": orDefault(v.spec.Steps, 64), "moves_used": r.NSteps, "schedule": map[bool]string{true: "solver variable per step", false: "first enabled move (harness is schedule-independent by construction)"}[v.spec.Symbolic],
+			"inputs": r.Inputs})
+		for _, o := range r.Obs {
+			nobl++
+			if (o.Class == "cover" && o.Result == "sat") || (o.Class != "cover" && o.Result == "unsat") {
+				ndis++
+			}
+			if o.Class == "cover" && o.Result == "sat" {
+				traces++
+			}
+			if len(samples) < 400 {
+				samples = append(samples, sample{v.spec.Name, o.Class, o.ID, o.Result, o.Solver, o.Ms, o.Pos})
+			}
+		}
+		viol += len(v.viol)
+		incon = append(incon, v.incon...)
+	}
+	if states == 0 {
+		states = 1
+	}
+	if trans == 0 {
+		trans = 1
+	}
+	if len(samples) == 0 {
+		samples = append(samples, sample{Harness: "none", Class: "none", ID: note, Result: "inconclusive"})
+	}
+	ev := map[string]interface{}{
+		"property_id": prop, "tier": tier, "seed": seed, "level": "model_checking", "wall_s": wall.Seconds(), "violations": viol,
+		"coverage": map[string]interface{}{
+			"states":      states,
+			"transitions": trans,
+			"traces_validated_against_impl": 0,
+			"samples":                 samples,
+			"obligations":             nobl,
+			"discharged":              ndis,
+			"discharged_by_simplifier": ntriv,
+			"reachability_witnesses_sat": traces,
+			"functions_encoded":       keys(funcs),
+			"library_contracts":       keys(stubs),
+			"bounds":                  bounds,
+			"solver_ms":               solveMs,
+			"symbolic_execution_ms":   execMs,
+			"inconclusive":            incon,
+			"explanation":             "states = basic-block instances + scheduler steps encoded; transitions = SSA instructions + candidate moves encoded; every obligation is an SMT query (unsat = holds for all values within the stated bounds); reachability witnesses must be sat",
+			"exhaustive":              false,
+		},
+		"assumptions": keys(assum),
+	}
+	if note != "" {
+		ev["coverage"].(map[string]interface{})["note"] = note
+	}
+	b, _ := json.MarshalIndent(ev, "", " ")
+	os.WriteFile(filepath.Join("/verif/evidence", prop+".json"), b, 0o644)
+}
+
+func orDefault(v, d int) int {
+	if v == 0 {
+		return d
+	}
+	return v
+}
+
+func keys(m map[string]bool) []string {
+	out := make([]string, 0, len(m))
+	for k := range m {
+		out = append(out, k)
+	}
+	sort.Strings(out)
+	return out
+}
